@@ -160,6 +160,10 @@ class SendersSim(PeerSim):
                 text = (f"t\u00e4sk {i} msg {k} \u20ac\u4e2d" if self.cfg.get("u8") else f"task {i} msg {k}")
                 if self.cfg.get("huge") and (i + k) % 3 == 0:
                     text += " " + "x" * (70_000 if k % 2 else 140_000)
+                if self.cfg.get("odd_headers") and (i + k) % 5 == 4:
+                    # ... or a value the encoder cannot turn into bytes at all: the send fails, without a trace
+                    text = "lone surrogate \ud800 " + text
+                    self.fault("send_of_unencodable_message")
                 m[58] = text
                 if self.cfg.get("odd_headers") and (i + 2 * k) % 3 == 0:
                     # a new message object that still carries header fields of an earlier life (cloned from a
